@@ -37,6 +37,7 @@ class Obligation:
     line: int = 0
     info: str = ""
     expect_fail: bool = False   # cover obligations: must NOT be provable
+    low_budget: bool = False    # listed known finding: one short attempt is enough (it is expected to stay open)
     uses_strings: bool = False
     # results
     status: str = "pending"     # discharged | sat | unknown | error
@@ -52,6 +53,57 @@ def _mk_solver(timeout_ms: int, mbqi: bool = False):
     s.set("smt.mbqi", mbqi)
     s.set("smt.auto_config", False)
     return s
+
+
+def symbols(e) -> frozenset:
+    """names of the uninterpreted constants / functions occurring in a z3 expression
+    (no cross-call cache: z3 re-uses the ids of freed asts)"""
+    out = set()
+    seen = set()
+    stack = [e]
+    while stack:
+        x = stack.pop()
+        i = x.get_id()
+        if i in seen:
+            continue
+        seen.add(i)
+        if z3.is_quantifier(x):
+            stack.append(x.body())
+            for pi in range(x.num_patterns()):
+                stack.extend(x.pattern(pi).children())
+            continue
+        if z3.is_app(x):
+            d = x.decl()
+            if d.kind() == z3.Z3_OP_UNINTERPRETED:
+                out.add(d.name())
+            stack.extend(x.children())
+    return frozenset(out)
+
+
+def coi_slice(axioms: List[Any], ob: Obligation):
+    """Cone of influence: keep only hypotheses (and axioms) that share an uninterpreted symbol,
+    transitively, with the goal.  Dropping hypotheses is sound for an `unsat` verdict."""
+    want = set(symbols(ob.goal))
+    items = [(p, symbols(p)) for p in ob.pc] + [(a, symbols(a)) for a in axioms]
+    keep = [False] * len(items)
+    # symbols that occur nearly everywhere connect everything: do not propagate through them
+    hub = {"root", "null_Node", "self"}
+    changed = True
+    while changed:
+        changed = False
+        for k, (p, sy) in enumerate(items):
+            if not keep[k] and (sy - hub) & want:
+                keep[k] = True
+                new = (sy - hub) - want
+                if new:
+                    want |= new
+                    changed = True
+    s = z3.Solver()
+    for k, (p, _) in enumerate(items):
+        if keep[k]:
+            s.add(p)
+    s.add(z3.Not(ob.goal))
+    return s.to_smt2(), sum(keep), len(items)
 
 
 def to_smt2(axioms: List[Any], ob: Obligation, nostr: bool = False) -> str:
@@ -158,6 +210,24 @@ def discharge(axioms: List[Any], obs: List[Obligation], timeout_s: int = 30,
     for ob in obs:
         if not ob.expect_fail and "str." not in ob.goal.sexpr() and "str." in texts[ob.oid]:
             sliced[ob.oid] = to_smt2(axioms, ob, nostr=True)
+    # round 0b: cone-of-influence slice (sound for the same reason)
+    coi = {}
+    for ob in obs:
+        if not ob.expect_fail:
+            try:
+                t, kept, total = coi_slice(axioms, ob)
+                if kept < total:
+                    coi[ob.oid] = t
+            except Exception:
+                pass
+    if coi:
+        jobs = [(oid, t, 6000, False) for oid, t in coi.items()]
+        for oid, res, dt, model, reason in p.imap_unordered(_worker, jobs, chunksize=1):
+            ob = byid[oid]
+            ob.time_s += dt
+            if res == "unsat":
+                ob.status, ob.backend = "discharged", "z3/cone-of-influence-slice"
+        sliced = {k: v for k, v in sliced.items() if byid[k].status != "discharged"}
     if sliced:
         jobs = [(oid, t, 5000, False) for oid, t in sliced.items()]
         for oid, res, dt, model, reason in p.imap_unordered(_worker, jobs, chunksize=1):
@@ -170,10 +240,10 @@ def discharge(axioms: List[Any], obs: List[Obligation], timeout_s: int = 30,
     # cover obligations only get the first short round: "not refutable quickly" is what they need
     rnd(obs, min(timeout_s, max(3, timeout_s / 6)), False, "z3")
     for tmo, mb, tag in ((timeout_s / 3, True, "z3+mbqi"), (timeout_s, False, "z3"), (timeout_s, True, "z3+mbqi")):
-        sel = [ob for ob in open_() if not ob.expect_fail]
+        sel = [ob for ob in open_() if not ob.expect_fail and not ob.low_budget]
         if sel and (retry_mbqi or not mb):
             rnd(sel, tmo, mb, tag)
-    pending = [ob for ob in obs if ob.status in ("unknown", "error") and not ob.expect_fail]
+    pending = [ob for ob in obs if ob.status in ("unknown", "error") and not ob.expect_fail and not ob.low_budget]
     if pending and use_cvc5 and os.path.exists("/usr/bin/cvc5"):
         for ob in pending:
             t0 = time.time()
